@@ -260,6 +260,7 @@ func RunSession(st *simdisk.State, cfg Config, ops []Op, so SessionOpts) *Sessio
 		}
 		m := ModelFromObs(o, so.Base)
 		r.Models = append(r.Models, m)
+		prevListed, _ := ExpectedListing(sys.MetaRaw())
 		for i, op := range ops {
 			nm := m.Clone()
 			reject := ApplyModel(nm, op)
@@ -302,10 +303,30 @@ func RunSession(st *simdisk.State, cfg Config, ops []Op, so SessionOpts) *Sessio
 					v.Msg = fmt.Sprintf("after op %d %s: %s", i+1, op, v.Msg)
 					r.Viol = append(r.Viol, v)
 				}
-				if raw := sys.MetaRaw(); true {
-					if exp, err := ExpectedListing(raw); err == nil && !sameStrings(exp, ob.Listing) {
-						r.Viol = append(r.Viol, Violation{Prop: "C13", Msg: fmt.Sprintf("after op %d %s: directory holds %v, metadata lists %v", i+1, op, ob.Listing, exp)})
+				if exp, err := ExpectedListing(sys.MetaRaw()); err == nil {
+					switch op.K {
+					case "R":
+						// after Open: exactly the files of live segments
+						if !sameStrings(exp, ob.Listing) {
+							r.Viol = append(r.Viol, Violation{Prop: "C13", Msg: fmt.Sprintf("after op %d %s: directory holds %v, metadata lists %v", i+1, op, ob.Listing, exp)})
+						}
+					case "D":
+						// after DeleteRange (no reader is in flight here): files of segments it removed are gone
+						live := map[string]bool{}
+						for _, n := range exp {
+							live[n] = true
+						}
+						for _, n := range prevListed {
+							if !live[n] {
+								for _, h := range ob.Listing {
+									if h == n {
+										r.Viol = append(r.Viol, Violation{Prop: "C13", Msg: fmt.Sprintf("after op %d %s returned, the file %s of a segment it removed is still in the directory %v", i+1, op, n, ob.Listing)})
+									}
+								}
+							}
+						}
 					}
+					prevListed = exp
 				}
 			}
 		}
